@@ -338,7 +338,7 @@ static bool enabled(int p, const struct opdef *od)
     case K_PREL:
         return D.has_pool && od->a > 0 && D.pool_held[p] >= (uint64_t)od->a;
     case K_BPUT:
-        return D.has_buf && od->a > 0;
+        return D.has_buf && (od->a > 0 || od->b == 13);
     case K_BGET:
         return D.has_buf;
     case K_OQPUT: case K_OQGET:
